@@ -40,7 +40,12 @@ METHOD = {"legacy": "solve_legacy"}        # operation name in Driver.tla -> met
 def run_script(D, cn, sc, variant, islinear=0):
     """replay one script on one real class; returns raws (script calls + twins) and relations"""
     U = D.UNIT
-    S = D.Session(cn, ncell=3, profile=sc["prof"], t0=sc["t0"] / U, islinear=islinear)
+    # a script that uses the dtlocal directive somewhere runs on a discretisation whose per-cell steps differ from cell to cell
+    # (same minimum), so that a step taken with the array differs from a step taken with its minimum -- in all its runs and twins
+    spread = any(c.get("dtl") for c in sc["calls"])
+    mk = lambda: D.Session(cn, ncell=3, profile=sc["prof"], t0=sc["t0"] / U, islinear=islinear, dtlocal_spread=spread)   # noqa: E731
+    dirs = lambda c: ({"dtlocal": True} if c.get("dtl") else None)                                                        # noqa: E731
+    S = mk()
     raws, rels, lastres = [], [], None
     idx_of_call = []
     froms = []
@@ -61,7 +66,7 @@ def run_script(D, cn, sc, variant, islinear=0):
         if tkey not in tsave_pool:
             tsave_pool[tkey] = [t / U for t in c["tsave"]]
         raw, res = S.call(METHOD.get(c["op"], c["op"]), f, float(c.get("cfl", 1)), tsave_pool[tkey], stop_pool[skey], monitors=mons,
-                          intent={"stop": stop_of(c, U), "tsave": [t / U for t in c["tsave"]]})
+                          directives=dirs(c) if c["op"] != "legacy" else None, intent={"stop": stop_of(c, U), "tsave": [t / U for t in c["tsave"]]})
         raws.append(raw)
         froms.append("last" if c["cont"] else "f0")
         idx_of_call.append(len(raws))
@@ -73,33 +78,44 @@ def run_script(D, cn, sc, variant, islinear=0):
         for j in range(i + 1, len(calls)):
             a, b = calls[i], calls[j]
             if a["op"] == b["op"] == "solve" and not a["cont"] and not b["cont"] and eff_stop(a) == eff_stop(b) \
-                    and a.get("cfl", 1) == b.get("cfl", 1):
+                    and a.get("cfl", 1) == b.get("cfl", 1) and bool(a.get("dtl")) == bool(b.get("dtl")):
                 if a["tsave"] == b["tsave"]:
                     rels.append({"type": "same", "a": i + 1, "b": j + 1, "c": 0})
                 else:                                       # same effective stop, different save times / monitors
                     rels.append({"type": "transparent", "a": i + 1, "b": j + 1, "c": 0})
     # twin 1: the first call repeated on a fresh object
     c0 = calls[0]
-    S2 = D.Session(cn, ncell=3, profile=sc["prof"], t0=sc["t0"] / U, islinear=islinear)
+    S2 = mk()
     raw, _ = S2.call(METHOD.get(c0["op"], "solve"), S2.f0, float(c0.get("cfl", 1)), [t / U for t in c0["tsave"]], stop_of(c0, U),
-                     monitors=mon_dict(c0["freqs"], variant) if c0["freqs"] else None)
+                     monitors=mon_dict(c0["freqs"], variant) if c0["freqs"] else None,
+                     **({"directives": dirs(c0)} if c0["op"] != "legacy" else {}))
     raws.append(raw)
     rels.append({"type": "same", "a": 1, "b": len(raws), "c": 0})
+    # twin 1b: every LATER solve from the user's field repeated on a fresh object: nothing an earlier call left on the solver
+    # object (directives, CFL number, caches, multistep history) may reach it
+    for j in range(1, len(calls)):
+        cj = calls[j]
+        if cj["op"] == "solve" and not cj["cont"]:
+            Sj = mk()
+            raw, _ = Sj.call("solve", Sj.f0, float(cj.get("cfl", 1)), [t / U for t in cj["tsave"]], stop_of(cj, U),
+                             monitors=mon_dict(cj["freqs"], variant) if cj["freqs"] else None, directives=dirs(cj))
+            raws.append(raw)
+            rels.append({"type": "same", "a": j + 1, "b": len(raws), "c": 0})
     # twin 2: the plain run (no save time, no monitor) with the same stop, fresh object
     if (c0["tsave"] or c0["freqs"]) and c0["op"] != "legacy":
-        S3 = D.Session(cn, ncell=3, profile=sc["prof"], t0=sc["t0"] / U, islinear=islinear)
+        S3 = mk()
         et, em = eff_stop(c0)
-        raw, _ = S3.call("solve", S3.f0, float(c0.get("cfl", 1)), [], stop_of({"tot": et, "maxit": em}, U))
+        raw, _ = S3.call("solve", S3.f0, float(c0.get("cfl", 1)), [], stop_of({"tot": et, "maxit": em}, U), directives=dirs(c0))
         raws.append(raw)
         rels.append({"type": "transparent", "a": len(raws), "b": 1, "c": 0})
     # twin 3: whole run for solve N ; restart M  (restart from the final state only)
     for j in range(1, len(calls)):
         if calls[j]["op"] == "restart" and calls[j]["cont"] and not calls[j - 1]["tsave"] \
                 and calls[j - 1]["op"] == "solve" and raws[j - 1]["nit"] > 0 and len(raws[j - 1]["res"]) == 1 \
-                and calls[j].get("cfl", 1) == calls[j - 1].get("cfl", 1):
+                and calls[j].get("cfl", 1) == calls[j - 1].get("cfl", 1) and bool(calls[j].get("dtl")) == bool(calls[j - 1].get("dtl")):
             n_whole = raws[j - 1]["nit"] + raws[j]["nit"]
-            S4 = D.Session(cn, ncell=3, profile=sc["prof"], t0=sc["t0"] / U, islinear=islinear)
-            raw, _ = S4.call("solve", S4.f0, float(calls[j].get("cfl", 1)), [], {"maxit": n_whole})
+            S4 = mk()
+            raw, _ = S4.call("solve", S4.f0, float(calls[j].get("cfl", 1)), [], {"maxit": n_whole}, directives=dirs(calls[j]))
             raws.append(raw)
             rels.append({"type": "split", "a": len(raws), "b": j, "c": j + 1})
     return raws, rels, trace
